@@ -608,6 +608,46 @@ Proof.
   apply Z.eqb_eq in Ev. subst. auto.
 Qed.
 
+(* what is left when the exchange is over: nothing, unless the Mkdir succeeded and
+   somebody put an entry into the directory before the client's Remove ran *)
+Lemma exchange_left_behind remote pr env sc :
+  let x := client_exchange remote pr env sc in
+  left_behind env (x_eff x) = [] \/
+  exists p leaf, sc_path sc = IoOk p /\ validate p remote pr = VOk leaf /\
+    mkdir_ok env leaf = true /\ at_cleanup env (under_base leaf) = CsNonEmptyDir /\
+    left_behind env (x_eff x) = [under_base leaf].
+Proof.
+  cbv zeta.
+  destruct (exchange_effects remote pr env sc) as [H|[p [leaf [Hp [_ [Hv [_ [[_ [H _]]|[Hm [H _]]]]]]]]]];
+    cbv zeta in H; rewrite H.
+  - left. reflexivity.
+  - left. reflexivity.
+  - unfold left_behind. cbn [left_from app].
+    destruct (at_cleanup env (under_base leaf)) eqn:Ec; cbn [remove_clears filter];
+      rewrite ?bytes_eqb_refl; cbn [negb]; try (left; reflexivity).
+    right. exists p, leaf. repeat split; assumption.
+Qed.
+
+Lemma exchange_nothing_left remote pr env sc :
+  (forall q, at_cleanup env q <> CsNonEmptyDir) ->
+  left_behind env (x_eff (client_exchange remote pr env sc)) = [].
+Proof.
+  intro Hne. destruct (exchange_left_behind remote pr env sc) as [H|[p [leaf [_ [_ [_ [Hc _]]]]]]].
+  - exact H.
+  - exfalso. exact (Hne _ Hc).
+Qed.
+
+Lemma exchange_nothing_left_refuted :
+  exists remote pr env sc,
+    left_behind env (x_eff (client_exchange remote pr env sc)) <> [].
+Proof.
+  exists false, PNone,
+    {| open_root_ok := true; mkdir_ok := fun _ => true; at_cleanup := fun _ => CsNonEmptyDir |},
+    {| sc_path := IoOk (fs_base ++ slash :: pfx_local ++ [x31]); sc_eom1 := EomOk; sc_put := true; sc_fin := true;
+       sc_res := IoOk 0%Z; sc_eom2 := EomOk |}.
+  vm_compute. discriminate.
+Qed.
+
 (* ---------- the server's verification ------------------------------------------ *)
 Lemma server_accepts code st lookup who :
   server_verdict code st lookup = (0%Z, who) ->
